@@ -1,14 +1,18 @@
 import RichModel.Model.Term
+import RichModel.Model.TermStyle
 import RichModel.Model.Live
+import RichModel.Model.LiveCrop
 import RichModel.Gen.CellWidths
 import RichModel.Drv.Proto
 /- Driver handlers for property C10 (terminal replay, live / progress / status state machine).
 
 Request formats (fields separated by TAB, see harness/props/c10.py):
-* `term_replay  H  ops`                         -> `rows;row;col;visible`
+* `term_replay  H  ops`                         -> `rows;row;col;visible`   (ops may contain `G` = SGR, `O` = OSC 8)
+* `term_plain  ops`                             -> ops of `plainOps`
 * `live_run   cfg  init  faults  ops`           -> per operation `err;termops` joined by `|`, then `#` final control state
 * `live_with  cfg  init  faults  ops  raiseAt`  -> `termops#raised#` final control state
 * `live_spec  cfg  init  ops`                   -> `wf;printed;lastFrame`
+* `live_nofit cfg  init  ops`                   -> `wfNoFit;wf`
 * `live_specm cfg  init  ops`                   -> `wfM;rows` (finished ++ liveFrameOf, trailing spaces / blank rows trimmed)
 cfg  = `kind,transient,W,H,redirOut,redirErr,bareBypass,startGuard,overflow,resetShape,blankFix,flushFix,terminal,dumb,disable,faultBase,guardBase,disableFix,spin`
        (numbers; `spin` = code points of what the Status spinner shows at the 0th, 1st, … render)
@@ -49,6 +53,8 @@ def decTermOp (s : String) : Option TermOp :=
   | ['E'] => some .el2
   | ['S'] => some .showCursor
   | ['H'] => some .hideCursor
+  | ['G'] => some (.sgr [])        -- a rendition sequence (parameters are opaque to the screen)
+  | ['O'] => some (.osc8 [])       -- a hyperlink sequence
   | _ => none
 
 def decTermOps (s : String) : Option (List TermOp) :=
@@ -172,6 +178,12 @@ def handlers : List (String × (List String → String)) := [
       | some l => if decNat h == 0 then "unmodelled" else encScreen (Screen.replay (decNat h) Screen.init l)
       | none => "unmodelled"
     | _ => "bad-args"),
+  ("term_plain", fun a => match a with   -- style-free normal form of a stream (styles dropped, text runs merged)
+    | [ops] =>
+      match decTermOps ops with
+      | some l => encOps (plainOps l)
+      | none => "unmodelled"
+    | _ => "bad-args"),
   ("live_run", fun a => match a with
     | [cfg, init, faults, ops] =>
       match decCfg cfg, decFaults faults, decOpsL ops with
@@ -210,6 +222,15 @@ def handlers : List (String × (List String → String)) := [
         if !wf cfg ov r0 ops then "0;0:;0:" else
         "1;" ++ encStrList (printed cfg ov r0 ops) ++ ";" ++
           encStrList (if cfg.kind == .live then lastFrame cfg ov r0 ops else trimFrame (lastFrame cfg ov r0 ops))
+      | _, _ => "unmodelled"
+    | _ => "bad-args"),
+  ("live_nofit", fun a => match a with   -- `wfNoFit;wf` (the two agree for crop / ellipsis: `wfOps_of_crop`)
+    | [cfg, init, ops] =>
+      match decCfg cfg, decOpsL ops with
+      | some (cfg, ov), some ops =>
+        if !inDomain cfg ov ops then "unmodelled" else
+        let r0 := initFrame cfg init
+        encBool (wfNoFit cfg ov r0 ops) ++ ";" ++ encBool (wf cfg ov r0 ops)
       | _, _ => "unmodelled"
     | _ => "bad-args"),
   ("live_specm", fun a => match a with   -- any number of sessions: `wfM;finished ++ liveFrameOf` (canonical rows)
